@@ -12,6 +12,7 @@ import (
 	"github.com/formancehq/ledger/internal/bus"
 	"github.com/formancehq/ledger/internal/engine/utils/batching"
 	"github.com/formancehq/ledger/internal/machine/vm"
+	"github.com/formancehq/ledger/internal/verifhook"
 	"github.com/formancehq/stack/libs/go-libs/collectionutils"
 	"github.com/formancehq/stack/libs/go-libs/metadata"
 	"github.com/pkg/errors"
@@ -86,6 +87,7 @@ func (commander *Commander) exec(ctx context.Context, parameters Parameters, scr
 				return nil, nil, NewErrConflict()
 			}
 			defer commander.referencer.release(referenceTxReference, script.Reference)
+			verifhook.Yield(ctx, "exec.ref.taken")
 
 			_, err := commander.store.GetTransactionByReference(ctx, script.Reference)
 			if err == nil {
@@ -123,6 +125,7 @@ func (commander *Commander) exec(ctx context.Context, parameters Parameters, scr
 			return nil, nil, errors.Wrap(err, "locking accounts for tx processing")
 		}
 		unlock(ctx)
+		verifhook.Yield(ctx, "exec.locked")
 
 		err = m.ResolveBalances(ctx, commander.store)
 		if err != nil {
@@ -137,6 +140,7 @@ func (commander *Commander) exec(ctx context.Context, parameters Parameters, scr
 		if len(result.Postings) == 0 {
 			return nil, nil, NewErrNoPostings()
 		}
+		verifhook.Yield(ctx, "exec.ran")
 
 		tx := ledger.NewTransaction().
 			WithPostings(result.Postings...).
@@ -145,6 +149,7 @@ func (commander *Commander) exec(ctx context.Context, parameters Parameters, scr
 			WithID(commander.nextTXID()).
 			WithReference(script.Reference)
 
+		verifhook.Yield(ctx, "exec.txid")
 		log := logComputer(tx, result.AccountMetadata)
 		if parameters.IdempotencyKey != "" {
 			log = log.WithIdempotencyKey(parameters.IdempotencyKey)
@@ -211,6 +216,7 @@ func (commander *Commander) RevertTransaction(ctx context.Context, parameters Pa
 		return nil, NewErrRevertTransactionOccurring()
 	}
 	defer commander.referencer.release(referenceReverts, id)
+	verifhook.Yield(ctx, "revert.taken")
 
 	transactionToRevert, err := commander.store.GetTransaction(ctx, id)
 	if err != nil {
@@ -222,6 +228,7 @@ func (commander *Commander) RevertTransaction(ctx context.Context, parameters Pa
 	if transactionToRevert.Reverted {
 		return nil, NewErrRevertTransactionAlreadyReverted()
 	}
+	verifhook.Yield(ctx, "revert.read")
 
 	rt := transactionToRevert.Reverse()
 	rt.Metadata = ledger.MarkReverts(metadata.Metadata{}, transactionToRevert.ID)
